@@ -203,16 +203,59 @@ def r3(ctx, facts, cfg):
         asg_best = [n for n in f.walk() if n["k"] == "BinaryOperator" and n["op"] == "=" and var_ref(n["lhs"]) == best and in_subtree(n, body)]
         asg_ctx = [n for n in f.walk() if n["k"] == "BinaryOperator" and n["op"] == "=" and var_ref(n["rhs"]) == lv and var_ref(n["lhs"]) is not None and in_subtree(n, body)]
         upd_best = bool(asg_best) and all(ts_member(n["rhs"]) and expr_key(n["rhs"]) == expr_key(small) for n in asg_best)
-        # both updates happen exactly on the taken outcome
-        ab, ac = npos(f, asg_best), npos(f, asg_ctx)
-        together = bool(ab) and bool(ac) and all(p in taken for p in ab + ac) and \
-            not g.exists_path([g.entry_node], ab + ac, avoid_edges=[(bid, "T")])
-        # candidate is front() of the loop variable's buffer
-        inits = f.var_inits()
         cand_var = None
         sm = strip(small, casts=True)
         if isnode(sm) and sm["k"] == "MemberExpr":
             cand_var = var_ref(sm.get("base"))
+        # both updates happen exactly on the taken outcome
+        ab, ac = npos(f, asg_best), npos(f, asg_ctx)
+        # 'nothing chosen yet' — a null test of the variable that receives the chosen context — is the other way into the update: the
+        # first non-empty buffer is taken whatever its timestamp
+        chosen_vars = set(var_ref(n["lhs"]) for n in asg_ctx)
+        none_yet = []
+        for b2 in g.blocks:
+            c2 = g.term_cond(b2)
+            if c2 is None or not in_subtree(c2, body):
+                continue
+            lab = nonnull_label(c2, chosen_vars)
+            if lab is not None:
+                none_yet.append((b2, other(lab)))                     # label of 'nothing chosen yet'
+        taken = set(taken)
+        for (b2, l2) in none_yet:
+            taken |= set(g.reach([tnode(g, b2)], avoid_edges=[(b2, other(l2))]))
+        together = bool(ab) and bool(ac) and all(p in taken for p in ab + ac) and \
+            not g.exists_path([g.entry_node], ab + ac, avoid_edges=[(bid, "T")] + none_yet)
+        # R3d: a candidate is passed over only in favour of a context already chosen: from 'this buffer has a front event' every path
+        # that reaches the next iteration without the update has seen 'a context is chosen' (else a statement whose timestamp equals the
+        # initial value of best is never selected, never written, and the exit drain never ends)
+        cand_tests = []
+        if cand_var is None:
+            sm_ = strip(small, casts=True)
+            cand_var_ = var_ref(sm_.get("base")) if isnode(sm_) and sm_["k"] == "MemberExpr" else None
+        else:
+            cand_var_ = cand_var
+        for b2 in g.blocks:
+            c2 = g.term_cond(b2)
+            if c2 is None or not in_subtree(c2, body) or cand_var_ is None:
+                continue
+            lab = nonnull_label(c2, {cand_var_})
+            if lab is not None:
+                cand_tests.append((b2, lab))
+        loop_back = [tnode(g, b2) for b2 in g.blocks if g.blocks[b2].get("term") == "CXXForRangeStmt"]
+        skipped_unchosen = False
+        for (b2, l2) in cand_tests:
+            st = [y for (y, l3) in g.succ.get(tnode(g, b2), ()) if l3 == l2]
+            if g.exists_path(st, loop_back + [g.exit_node], avoid_nodes=ab + ac, avoid_edges=[(b3, l3) for (b3, l3) in none_yet] +
+                             ([] if none_yet else [])) and not none_yet:
+                skipped_unchosen = True
+            elif none_yet and g.exists_path(st, loop_back, avoid_nodes=ab + ac, avoid_edges=[(b3, other(l3)) for (b3, l3) in none_yet]):
+                # with 'nothing chosen yet' taken, the update must follow
+                skipped_unchosen = True
+        ctx.ob("C05.R3d", "_process_lowest_timestamp_transit_event:first-candidate-always-taken", bool(cand_tests) and not skipped_unchosen,
+               "a thread whose buffer has a front event is passed over only in favour of a context that is already chosen: while nothing "
+               "is chosen the candidate is taken whatever its timestamp ('nothing chosen yet' tests: %d)" % len(none_yet), fn=f)
+        # candidate is front() of the loop variable's buffer
+        inits = f.var_inits()
         front_ok = cand_var in inits and any(is_call(x, r"TransitEventBuffer::front$") and
                                              any(y["k"] == "DeclRefExpr" and y.get("did") == lv for y in walk(x)) for x in walk(inits[cand_var]))
         ok = cand_ok and upd_best and together and front_ok
@@ -622,6 +665,20 @@ def r7_tsc_slots(ctx, facts, cfg):
         tg.exists_path([tg.entry_node], npos(te, rsc))
     ctx.ob("C05.R7e", "RdtscClock::time_since_epoch:resync-when-interval-exceeded", ok_e,
            "the backend's conversion calls resync exactly on the outcome 'ticks since the base exceed the resync interval' (%s)" % over, fn=te)
+
+
+def nonnull_label(cond, vids):
+    """label of the outcome 'the pointer held by one of the variables is not null' for `p`, `!p`, `p != nullptr`, `p == nullptr` (and
+    their negations); None for anything else"""
+    core, neg = core_and_neg(cond)
+    if var_ref(strip(core, casts=True)) in vids:
+        return "F" if neg else "T"
+    nc = norm_cmp(cond)
+    cc = peel_not(cond)
+    if nc and nc[0] in ("==", "!=") and isnode(cc) and cc["k"] == "BinaryOperator" and \
+            any(var_ref(strip(x, casts=True)) in vids for x in (cc["lhs"], cc["rhs"])) and any(is_null(x) for x in (cc["lhs"], cc["rhs"])):
+        return "T" if nc[0] == "!=" else "F"
+    return None
 
 
 def is_release_order(o):
